@@ -29,7 +29,10 @@ def locate_jumps(solver, t, a, b, n=2000, thresh=4e-3, iters=48):
     x = np.linspace(a, b, n + 1)
     F = sample(solver, x, t)
     rng = F.max(axis=1) - F.min(axis=1)
-    rng = np.where(rng > 0, rng, 1.0)
+    # floors from the natural scales, so that rounding noise on an (almost) constant field is not a 'jump'
+    cs = np.sqrt(np.max(np.abs(F[2])) / np.min(F[0]))
+    floor = 1e-6 * np.array([np.max(F[0]), np.max(np.abs(F[1])) + cs, np.max(np.abs(F[2])), np.max(np.abs(F[3]))])
+    rng = np.maximum(rng, floor)
     d = np.max(np.abs(np.diff(F, axis=1)) / rng[:, None], axis=0)
     idx = np.where(d > thresh)[0]
     jumps = []
